@@ -53,3 +53,14 @@ contract("C05.should_skip", file=B, func="Schema2Base._should_skip",
 contract("C05.attribute_disallowed", file=B, func="Schema2Base._attribute_disallowed",
          params={"self": "Schema2Base", "attribute": "Str"}, returns="Bool", enc="native",
          ensures={"C05.select.inLibrary_stripped_unless_merged": "result == (self._strip_out_in_library and attribute == 'inLibrary')"})
+
+# C05 "every entry ... written": what is written for one unit class / entry does not depend on the classes before it (no value carried between
+# iterations, no break) - def-before-use analysis of the real loop bodies (pyvc/dataflow.py).  (_output_tags deliberately carries the depth
+# offset of a rooted subtree between iterations and is therefore not claimed here.)
+IND5 = {"dataflow_only": True, "no_frame": True}
+contract("C05.unit_classes_written_independently", file=B, func="Schema2Base._output_units",
+         params={"self": "Opaque", "unit_classes": "Opaque"}, returns="Opaque", enc="native",
+         ghost=dict(IND5, independent_iterations={0: [], 1: []}), ensures={})
+contract("C05.section_entries_written_independently", file=B, func="Schema2Base._output_section",
+         params={"self": "Opaque", "hed_schema": "Opaque", "key_class": "Opaque"}, returns="Opaque", enc="native",
+         ghost=dict(IND5, independent_iterations={0: []}), ensures={})
